@@ -190,7 +190,7 @@ fn edition_of(flags: &[String]) -> &'static str {
 }
 
 /// Normalise a rustc error message into a class: error code + message skeleton without names.
-fn error_class(stderr: &str) -> (String, String) {
+pub fn error_class(stderr: &str) -> (String, String) {
     for l in stderr.lines() {
         if l.starts_with("error") && !l.starts_with("error: aborting") {
             let code = l.find("[E").and_then(|i| l[i..].find(']').map(|j| l[i + 1..i + j].to_string())).unwrap_or_else(|| "E----".into());
